@@ -5,12 +5,14 @@ from ..facts import AnalysisGap, callee, callee_generic, ctor_of, local_id_of, l
 from .. import hq
 
 EXPLANATION = (
-    "FLOW-MONO: in the Verify arm of main the verdict flag is a bool initialised `true`, every assignment to it is the literal `false`, it is "
-    "assigned on every path of the result loop except Ok(report)->Ok(status)->status matches exactly Status::Success(Success::Theorem), and it is "
-    "read once, un-negated, to choose the success message; so the verdict is a monotone conjunction and cannot depend on the order in which provers "
-    "finish. TAB-STATUS: Display/FromStr of Status are extracted as tables; only \"Theorem\" maps to Success::Theorem, unknown text and a missing "
-    "status line are Err. ONCE: Prover::prove has exactly two call sites (sequential map, pool worker), each applied to every element of the "
-    "problem iterator without filter, the pool worker sends its result unconditionally, nothing else spawns the prover. BYTES: both sinks "
+    "FLOW-MONO: in the Verify arm of main the verdict flag is a bool initialised `true` and written only inside the result loop; the loop body "
+    "is evaluated symbolically into a decision tree over the prover result: on every path the flag keeps its value or becomes false, and it keeps "
+    "its value only when the result is Ok(report), report.status() is Ok(status) and status is exactly Status::Success(Success::Theorem) (so `if "
+    "!matches!(..) { ok = false }`, `ok &= helper(..)` and a match on a mapped result are the same to the rule); it is read once, un-negated, to "
+    "choose the success message; so the verdict is a monotone conjunction and cannot depend on the order in which provers finish. TAB-STATUS: Display/FromStr of Status are extracted as tables; only \"Theorem\" maps to Success::Theorem, unknown text and a missing "
+    "status line are Err. ONCE: prove_all is evaluated with every call of prove / send / execute recorded together with its path condition and loop nest: one prove "
+    "when instances() == 1 (the result is prove mapped over every element of `problems`), one otherwise, inside exactly one pass over `problems`, whose "
+    "result is sent unconditionally on the channel whose receiver is returned; nothing else calls prove or spawns the prover. BYTES: both sinks "
     "(Problem::to_file, Vampire::prove stdin) format the problem with the bare Display of Problem and nothing transforms the problem list between "
     "them (only into_iter/inspect). FLOW-ERR: spawn/write/wait/utf-8 failures in Vampire::prove are mapped to VampireError and returned. NAMES: the "
     "problem-name templates are pairwise disjoint languages with enumerate() indices. Runtime scheduling itself is not decided.")
